@@ -28,6 +28,7 @@ const addr = "127.0.0.1:9000"
 type item struct {
 	L       int  // declared length
 	Illegal bool // header only (4 bytes) with an illegal length value
+	Body    bool // Illegal: the announced bytes follow the header all the same (an over-long packet sent in full)
 }
 
 func build(items []item, seed byte) (stream []byte, valid [][]byte) {
@@ -36,6 +37,11 @@ func build(items []item, seed byte) (stream []byte, valid [][]byte) {
 		binary.BigEndian.PutUint32(hdr, uint32(it.L))
 		if it.Illegal {
 			stream = append(stream, hdr...)
+			if it.Body {
+				for j := 4; j < it.L; j++ {
+					stream = append(stream, seed+byte(i*16+j))
+				}
+			}
 			continue
 		}
 		p := append([]byte{}, hdr...)
@@ -462,6 +468,7 @@ func main() {
 	comp := func() chunker { return allCompositions }
 	V := func(l int) item { return item{L: l} }
 	I := func(l int) item { return item{L: l, Illegal: true} }
+	IB := func(l int) item { return item{L: l, Illegal: true, Body: true} }
 	maxStream := 13
 	if run.Thorough() {
 		maxStream = 17
@@ -521,6 +528,9 @@ func main() {
 			add(conf{name: fmt.Sprintf("%s max=%d exact", side, m), items: []item{V(m), V(4)}, maxLen: m, ch: comp, client: client}, 0, true)
 			add(conf{name: fmt.Sprintf("%s max=%d plus1", side, m), items: []item{V(4), I(m + 1), V(4)}, maxLen: m, ch: comp, client: client}, 0, true)
 			add(conf{name: fmt.Sprintf("%s max=%d minus1", side, m), items: []item{V(m - 1), V(4)}, maxLen: m, ch: comp, client: client}, 0, true)
+			// the over-long packet is sent in full (whether it is an error must not depend on how much of it has arrived)
+			add(conf{name: fmt.Sprintf("%s max=%d plus1 sent in full", side, m), items: []item{V(4), IB(m + 1)}, maxLen: m, ch: comp, client: client}, 0, true)
+			add(conf{name: fmt.Sprintf("%s max=%d plus5 sent in full first", side, m), items: []item{IB(m + 5), V(4)}, maxLen: m, ch: comp, client: client}, 0, true)
 		}
 		// (4) around the 4096-byte read buffer
 		menu := []int{1, 4095, 4096, 4097, 8192}
@@ -529,6 +539,7 @@ func main() {
 			add(conf{name: fmt.Sprintf("%s big seq=%v chunk-menu", side, s), items: s, maxLen: 1 << 20, ch: func() chunker { return menuChunker(menu) }, client: client}, 0, true)
 		}
 		add(conf{name: side + " max=4096 exact big", items: []item{V(4096), V(6)}, maxLen: 4096, ch: func() chunker { return menuChunker(menu) }, client: client}, 0, true)
+		add(conf{name: side + " max=64 200 bytes sent in full", items: []item{V(6), IB(200), V(6)}, maxLen: 64, ch: func() chunker { return menuChunker([]int{1, 4, 206, 212}) }, client: client}, 0, true)
 		add(conf{name: side + " max=4096 plus1 big", items: []item{V(6), I(4097), V(6)}, maxLen: 4096, ch: func() chunker { return menuChunker(menu) }, client: client}, 0, true)
 		// (5) schedules: a few partitions under every schedule with <=1 / <=2 deviations
 		b := 1
